@@ -1,0 +1,21 @@
+//go:build verif
+
+// Contracts for govc (comment-only file; see /verif/DESIGN.md section 3).
+package doerner
+
+// ---- entry points (C20): none of them may panic, whatever the arguments
+//@ func Keygen
+//@   nopanic[C20]
+//@   ensures result != nil
+//@ func RefreshReceiver
+//@   nopanic[C20]
+//@   ensures result != nil
+//@ func RefreshSender
+//@   nopanic[C20]
+//@   ensures result != nil
+//@ func SignReceiver
+//@   nopanic[C20]
+//@   ensures result != nil
+//@ func SignSender
+//@   nopanic[C20]
+//@   ensures result != nil
